@@ -1,13 +1,50 @@
 """C13 -- each option changes only what it documents.
 
 Oracle: one-factor-at-a-time comparison of two real runs that differ in one
-constructor argument (pipespec.check_option)."""
-import random
+constructor argument (pipespec.check_option), plus the option's documented effect read
+off the second output (`check_effect`: no comment at all under disable_comments, no
+`{k>1}` under disable_exact_cardinality, no `?` without allow_opt_cardinality, and --
+recounted from the triples -- `?`/`*` on every constraint that some instance of the
+shape does not hold under all_instances_are_compliant_mode).
 
-from vp import pipeprops, pipespec, pipe
+Streams
+  * class pairs: graphs as C01, one option out of 9 flipped (all 2^6 switch assignments);
+  * class pairs WITHOUT the typing constraint: the same with `namespaces_to_ignore`
+    covering the instantiation property (run kind "shexc_ign", model entry
+    pipe_shexc_ign): a class whose instances share one property gives a shape with
+    exactly ONE constraint (in one-document class mode the typing constraint is held by
+    100 % of the instances, so no threshold removes it);
+  * shape-map pairs (vp.pipemap, model Model/RunMap.v): the families of pipemap.gen_run
+    and `lone_run` -- labels whose nodes share one property (shapes with exactly one
+    constraint), selected nodes without outgoing triples (named by the shape map only, or
+    occurring only as objects), uniform value counts (`{k>1}`);
+  * sinks: output file vs string.  Fresh Shapers (big outputs across the serializer's
+    5000-line buffer), and ONE Shaper asked several times in every order (string->file,
+    file->string, repeated calls; run kind "hist:<ops>", s = string_output, f =
+    output_file over a stale file): every output of a history must be the text a fresh
+    Shaper returns as a string.
+"""
+import json
+import os
+import random
+import signal
+import warnings
+from fractions import Fraction
+
+from vp import core, pipeprops, pipespec, pipe, pipemap
+
+pipemap.install()      # shape-map runs (cfg["smap"]) go through Model.RunMap / Shaper(shape_map_raw=...)
+
+E = pipemap.E
+SH = pipemap.SH
+XS = pipe.XSD + "string"
+RDF_NS = "http://www.w3.org/1999/02/22-rdf-syntax-ns#"
 
 OPTIONS = ["disable_comments", "decimals", "mode", "ns", "shapes_ns", "all_instances_are_compliant_mode",
            "allow_opt_cardinality", "disable_exact_cardinality", "disable_or_statements"]
+# shape-map runs: the model covers the default shapes namespace only
+MAP_OPTIONS = [o for o in OPTIONS if o != "shapes_ns"]
+HISTORIES = ["sf", "fs", "ss", "ff", "sfs", "fsf", "ssf", "ffs", "sfsf"]
 
 
 def flip(option, cfg, r):
@@ -30,8 +67,327 @@ def flip(option, cfg, r):
         a[option], b[option] = False, True
     elif option == "disable_or_statements":
         a[option], b[option] = True, False
+        a["allow_redundant_or"] = False          # allow_redundant_or without OR statements is a rejected configuration
         b["allow_redundant_or"] = r.random() < 0.5
     return a, b
+
+
+# --------------------------------------------------------------------------
+# generators
+# --------------------------------------------------------------------------
+
+def values_of(r, kind, m, others):
+    if kind == "lit":
+        return [("L", "v%d" % j, XS) for j in range(m)]
+    if kind == "int":
+        return [("L", "%d" % j, pipe.XSD + "integer") for j in range(m)]
+    if kind == "iri":
+        return [("I", E + "u%d" % j) for j in range(m)]
+    if kind == "bnode":
+        return [("B", "_:w%d" % j) for j in range(m)]
+    return r.sample(others, min(m, len(others)))
+
+
+def lone_graph(r, typed=False):
+    """labels L0.. whose nodes share ONE property (sometimes two): value counts uniform over the holders more often
+    than not ({k}), some nodes of a label without any value -- such a node has no outgoing triple at all, and occurs
+    as an object of an unlabelled node or nowhere in the document.  Returns (triples, [(node, label)])"""
+    nlab = r.choice([1, 1, 2, 2, 3])
+    groups = [[("I", E + "n%d_%d" % (li, k)) for k in range(r.randint(2, 4))] for li in range(nlab)]
+    allnodes = [n for g in groups for n in g]
+    ts = []
+    for li, nodes in enumerate(groups):
+        props = [E + "p%d" % li]
+        if r.random() < 0.3:
+            props.append(E + r.choice(["q", "p0", "p1"]))
+        for p in dict.fromkeys(props):
+            kind = r.choice(["lit", "lit", "int", "iri", "bnode", "ref"])
+            typical = r.choice([None, 1, 2, 2, 3])
+            for n in nodes:
+                m = r.choice([0, 1, 2, 3]) if (typical is None or r.random() < 0.2) else typical
+                if r.random() < 0.3:
+                    m = 0
+                for o in values_of(r, kind, m, [x for x in allnodes if x != n]):
+                    ts.append((n, p, o))
+        if typed:
+            for n in nodes:
+                if r.random() < 0.5:
+                    ts.append((n, pipe.RDF_TYPE, ("I", E + "C%d" % r.randint(0, 1))))
+    subj = {s for s, _, _ in ts}
+    for n in allnodes:
+        if n not in subj and r.random() < 0.5:
+            ts.append((("I", E + "m%d" % r.randint(0, 1)), E + "link", n))
+    ts = list(dict.fromkeys(ts))
+    r.shuffle(ts)
+    return ts, [(n, SH + "L%d" % li) for li, nodes in enumerate(groups) for n in nodes]
+
+
+def lone_run(r, base, absolute=False):
+    """shape-map run over lone_graph; absolute: every reference of the shape map written <iri> (so that the
+    namespaces dictionary is a pure presentation argument)"""
+    cfg = dict(base)
+    typed = r.random() < 0.3
+    ts, pairs = lone_graph(r, typed)
+    ns = [(E, "ex"), (SH, "sh")] + ([r.choice(pipemap.NS_POOL[2:])] if r.random() < 0.3 else [])
+    r.shuffle(ns)
+    cfg.update({"ns": ns, "targets": [], "cap": -1, "all_classes": typed and r.random() < 0.5, "smap": {"tau": None}})
+
+    def ref(iri, n, p):
+        return ["A", iri] if (absolute or r.random() < 0.7) else ["P", p, iri[len(n):]]
+    items = [[["node", ref(n[1], E, "ex")], ref(lab, SH, "sh")] for n, lab in pairs if r.random() < 0.95]
+    if not items:
+        items = [[["node", ["A", pairs[0][0][1]]], ["A", pairs[0][1]]]]
+    r.shuffle(items)
+    pipemap.render(cfg, items, r, layout=False)
+    cfg["smap"]["answers"] = {}
+    return ts, cfg
+
+
+def lone_class_graph(r):
+    """classes whose instances share one property: without the typing constraint a shape with one constraint"""
+    ts, pairs = lone_graph(r)
+    for n, lab in pairs:
+        ts.insert(r.randint(0, len(ts)), (n, pipe.RDF_TYPE, ("I", E + "K" + lab[len(SH):])))
+    return ts
+
+
+def low_threshold(r, thresholds):
+    return (0, 1) if r.random() < 0.4 else r.choice(thresholds)
+
+
+def map_pair(r, i):
+    opt = MAP_OPTIONS[i % len(MAP_OPTIONS)]
+    j = i // len(MAP_OPTIONS)
+    if opt == "ns" or j % 3 != 2:
+        base = pipe.switch_cfg(j)
+        base["mode"] = r.choice(["mixed", "mixed", "mixed", "ratio", "abs"])
+        base["remove_empty_shapes"] = r.random() < 0.7
+        if r.random() < 0.2:
+            base["disable_or_statements"] = False
+            base["allow_redundant_or"] = r.random() < 0.5
+        ts, cfg = lone_run(r, base, absolute=(opt == "ns"))
+        cfg["thr"] = low_threshold(r, pipemap.thresholds_map(ts, cfg, r))
+        fam = "lone"
+    else:
+        ts, cfg, fam = pipemap.gen_run(r, j, only_iri=True, sparql=False)
+    pipemap.note_case(fam, cfg)
+    note_inputs(ts, cfg)
+    a, b = flip(opt, cfg, r)
+    return {"runs": [(ts, a), (ts, b)], "meta": {"option": opt, "stream": "shape-map", "family": fam}}
+
+
+def note_inputs(ts, cfg):
+    """generation-time statistics (parent process; printed under coverage.shape_map_stream), from the data: selected
+    nodes without outgoing triples, labels whose nodes use exactly one property"""
+    inst = pipespec.spec_instances(ts, cfg)
+    subj = {s[1] for s, _, _ in ts}
+    objs = {o[1] for _, _, o in ts if o[0] != "L"}
+    props = {}
+    for s, p, o in ts:
+        for k in inst.get(s[1], []):
+            props.setdefault(k, set()).add(p)
+    st = pipemap.STATS
+    bare = [i for i in inst if i not in subj]
+    st["c13:map_pairs"] += 1
+    st["c13:map_pairs_with_a_selected_node_without_outgoing_triples"] += bool(bare)
+    st["c13:map_pairs_with_such_a_node_absent_from_the_document"] += any(i not in objs for i in bare)
+    st["c13:labels"] += len({k for ks in inst.values() for k in ks})
+    st["c13:labels_whose_nodes_use_exactly_one_property"] += sum(1 for k, ps in props.items() if len(ps) == 1)
+
+
+def ign_pair(r, i):
+    """class mode, namespaces_to_ignore covers the instantiation property: no typing constraint in any shape"""
+    opt = OPTIONS[i % len(OPTIONS)]
+    j = i // len(OPTIONS)
+    ts = lone_class_graph(r) if j % 3 != 2 else pipe.gen_graph(r, general=(j % 2 == 0))
+    cfg = pipeprops.random_cfg(r, ts, j)
+    cfg["cap"] = -1
+    if r.random() < 0.5:
+        cfg["thr"] = (0, 1)
+    cfg["ign"] = [RDF_NS] + ([r.choice(["http://other.org/ns#", "http://ex.org/a/", "http://www.w3.org/1999/02/"])]
+                             if r.random() < 0.3 else [])
+    a, b = flip(opt, cfg, r)
+    return {"runs": [(ts, a, "shexc_ign"), (ts, b, "shexc_ign")], "meta": {"option": opt, "stream": "no-typing-constraint"}}
+
+
+def sink_case(r, i):
+    """one Shaper asked several times (every order of the two sinks), against a fresh Shaper's string"""
+    k = i % 3
+    if k == 0:
+        ts = pipe.gen_graph(r, general=(i % 2 == 0))
+        cfg = pipeprops.random_cfg(r, ts, i)
+    elif k == 1:
+        ts = lone_class_graph(r)
+        cfg = pipeprops.random_cfg(r, ts, i)
+        if r.random() < 0.5:
+            cfg["ign"] = [RDF_NS]
+            cfg["cap"] = -1
+    else:
+        base = pipe.switch_cfg(i)
+        base["mode"] = r.choice(["mixed", "ratio", "abs"])
+        if i % 2:
+            ts, cfg = lone_run(r, base)
+            cfg["thr"] = low_threshold(r, pipemap.thresholds_map(ts, cfg, r))
+        else:
+            ts, cfg, _ = pipemap.gen_run(r, i, only_iri=True, sparql=False)
+    hs = ["sf", "fs"] + r.sample(HISTORIES[2:], 1)
+    first = (ts, cfg, "shexc_ign") if cfg.get("ign") else (ts, cfg)
+    return {"runs": [first] + [(ts, cfg, "hist:" + h) for h in hs],
+            "meta": {"option": "sink", "stream": "one-shaper", "classes": None}}
+
+
+# --------------------------------------------------------------------------
+# the real code for the run kinds of this check
+# --------------------------------------------------------------------------
+
+_impl_other = pipe.impl_other
+SINK_DIR = os.path.join(core.WORK, "sink")
+
+
+def shaper_kw(cfg):
+    kw = pipemap.shaper_kwargs_map(cfg) if pipemap.is_map(cfg) else pipe.shaper_kwargs(cfg)
+    if cfg.get("ign"):
+        kw["namespaces_to_ignore"] = list(cfg["ign"])
+    return kw
+
+
+def impl_hist(ts, cfg, ops, timeout=40.0):
+    """('ok', JSON list of the texts of the calls) | ('err', exception class, 'call k: innermost shexer frame')"""
+    from shexer.shaper import Shaper
+    warnings.filterwarnings("ignore")
+    k, m = cfg["thr"]
+    os.makedirs(SINK_DIR, exist_ok=True)
+    path = os.path.join(SINK_DIR, "hist_%d.shex" % os.getpid())
+    outs = []
+    old = signal.signal(signal.SIGALRM, pipe._alarm)
+    signal.setitimer(signal.ITIMER_REAL, timeout)
+    try:
+        sh = Shaper(raw_graph=pipe.nt_doc(ts), **shaper_kw(cfg))
+        for op in ops:
+            if op == "s":
+                outs.append(sh.shex_graph(string_output=True, acceptance_threshold=(k / m)))
+            else:
+                with open(path, "w") as f:          # the path is being reused: what it held must disappear
+                    f.write("# stale\n:Stale {\n   :p  IRI\n}\n" * 50)
+                sh.shex_graph(output_file=path, acceptance_threshold=(k / m))
+                with open(path, newline="") as f:
+                    outs.append(f.read())
+        return ("ok", json.dumps(outs))
+    except pipe.Hang:
+        return ("err", "Hang", "call %d" % len(outs))
+    except Exception as e:  # noqa: BLE001
+        import traceback
+        frames = [f for f in traceback.extract_tb(e.__traceback__) if "/shexer/" in f.filename]
+        where = "%s:%d:%s" % (frames[-1].filename.split("/shexer/")[-1], frames[-1].lineno, frames[-1].name) if frames else ""
+        return ("err", type(e).__name__, "call %d: %s" % (len(outs), where))
+    finally:
+        signal.setitimer(signal.ITIMER_REAL, 0)
+        signal.signal(signal.SIGALRM, old)
+        if os.path.exists(path):
+            os.remove(path)
+
+
+def _impl_other_c13(ts, cfg, kind, timeout=10.0):
+    if kind == "shexc_ign":
+        return pipe.impl_shexc(ts, cfg, timeout=timeout, extra_kw={"namespaces_to_ignore": list(cfg["ign"])})
+    if kind.startswith("hist:"):
+        return impl_hist(ts, cfg, kind[5:])
+    return _impl_other(ts, cfg, kind, timeout)
+
+
+pipe.impl_other = _impl_other_c13
+
+
+def ign_table(ts, cfg):
+    return pipe.model_table(ts, cfg) + [["X", x] for x in cfg["ign"]]
+
+
+# --------------------------------------------------------------------------
+# the documented effect of an option, read off the output it governs
+# --------------------------------------------------------------------------
+
+_FOREIGN = None
+
+
+def foreign_tags():
+    """root-cause tags of the known findings of C01 / C02 (figures and keys: their checks own them)"""
+    global _FOREIGN
+    if _FOREIGN is None:
+        _FOREIGN = {f["root_cause_tag"] for pid in ("C01", "C02") for f in core.load_findings(pid)
+                    if f.get("status") == "known" and f.get("root_cause_tag")}
+    return _FOREIGN
+
+
+def check_effect(cfg, doc, ts):
+    """what the switches of cfg promise about the document of their run (doc = pipe.canon of the text)"""
+    fails = []
+    cons = [(sh, c) for sh in doc["shapes"] for c in sh["constraints"]]
+    if cfg["disable_comments"]:
+        for sh in doc["shapes"]:
+            if sh["n"] is not None:
+                fails.append((None, "disable_comments leaves the instance count on the header of %s" % sh["label"]))
+        for sh, c in cons:
+            if c["fig"] != (None, None) or c["comments"]:
+                fails.append((None, "disable_comments leaves a comment on %s %s of %s" % (
+                    "^" if c["inv"] else "", c["pred"], sh["label"])))
+    if cfg["disable_exact_cardinality"]:
+        for sh, c in cons:
+            if c["card"].startswith("{") and int(c["card"].strip("{}")) > 1:
+                fails.append((None, "disable_exact_cardinality keeps %s on %s of %s" % (c["card"], c["pred"], sh["label"])))
+    if not cfg["allow_opt_cardinality"]:
+        for sh, c in cons:
+            if c["card"] == "?":
+                fails.append((None, "allow_opt_cardinality=False prints ? on %s of %s" % (c["pred"], sh["label"])))
+    if not cfg["all_instances_are_compliant_mode"]:
+        for sh, c in cons:
+            if c["card"] in ("?", "*"):
+                fails.append((None, "all_instances_are_compliant_mode=False prints %s on %s of %s" % (
+                    c["card"], c["pred"], sh["label"])))
+    else:
+        # all-compliant mode: a constraint that some instance of the shape does not hold must admit zero values.
+        # Recounted from the triples: the share of the instances with >= 1 value of the constraint's (direction,
+        # predicate, value class) -- an upper bound of the share holding the printed constraint.
+        inst, n_of, exp, nl = pipespec.expected_keys(ts, cfg)
+        for sh, c in cons:
+            cl = pipespec.class_of_label(sh["label"], inst, cfg["shapes_ns"])
+            if len(cl) != 1 or not n_of[cl[0]] or c["card"] in ("?", "*"):
+                continue
+            key = (c["inv"], c["pred"], pipe.value_class(c["values"], c["pred"], cfg["tau"]))
+            if len(c["values"]) > 1:
+                key = (c["inv"], c["pred"], "nonliteral")
+            share = exp[cl[0]].get(key, Fraction(0))
+            if share < 1:
+                rc = None
+                if key[2] == "nonliteral":
+                    d = "i" if c["inv"] else "d"
+                    members = [i for i, cs in inst.items() if cl[0] in cs]
+                    if any(nl[(i, d, c["pred"])][0] > 0 and nl[(i, d, c["pred"])][1] > 0 for i in members):
+                        rc = "rc_nonliteral_overlap"    # C01's finding: IRI and BNode holders added up
+                fails.append((rc, "all-compliant mode keeps cardinality %s on %s%s %r of %s although only %s of its "
+                                  "instances have such a value" % (c["card"], "^ " if c["inv"] else "", c["pred"],
+                                                                   c["values"], sh["label"], share)))
+    return [(rc, d) for rc, d in fails if rc not in foreign_tags()]
+
+
+RC_SHAPES_NS = "rc_custom_shapes_ns_reference_survives_cleaning"
+
+
+def shapes_ns_root_cause(cfg_b, doc_b, ts):
+    """C13-F2 (root cause of C05-F1 seen from C13): the profiler mints shape references in the DEFAULT shapes
+    namespace whatever shapes_namespace says, and the cleaning of empty shapes drops the candidates referring to a
+    removed shape by NAME: under a custom namespace the reference survives and wins the node-kind merge, where the
+    default-namespace run falls back to IRI / BNode (and cascades from there).  Computed from the data and the
+    document of the custom-namespace run: it prints a default-namespace reference to a class of the data that has
+    instances and no shape in that document."""
+    if not cfg_b["remove_empty_shapes"] or cfg_b["shapes_ns"] == pipe.DEFAULT_SHAPES_NS:
+        return None
+    inst = pipespec.spec_instances(ts, cfg_b)
+    printed = {sh["label"] for sh in doc_b["shapes"]}
+    gone = {"@" + pipespec.shape_label(c, pipe.DEFAULT_SHAPES_NS) for cs in inst.values() for c in cs
+            if pipespec.shape_label(c, cfg_b["shapes_ns"]) not in printed}
+    if any(v in gone for sh in doc_b["shapes"] for c in sh["constraints"] for v in c["values"]):
+        return RC_SHAPES_NS
+    return None
 
 
 class Spec(pipeprops.PropSpec):
@@ -41,10 +397,16 @@ class Spec(pipeprops.PropSpec):
     projection_name = "ShExC text, byte for byte (after the ratio shim)"
     rule = ("graphs as C01; for every case one option out of 9 is flipped (one-factor-at-a-time) under a random "
             "assignment of all the other options (all 2^6 switch assignments round-robin) and the two real outputs are "
-            "related; non-trivial = some class with >= 2 instances and some non-typing triple")
+            "related; the same pairs (a) in class mode with namespaces_to_ignore covering the instantiation property "
+            "(no typing constraint: shapes with exactly one constraint), (b) on shape-map configurations (pipemap "
+            "families + labels whose nodes share one property, selected nodes without outgoing triples); sinks: "
+            "fresh Shapers on outputs beyond the 5000-line buffer, and one Shaper asked for string and file in every "
+            "order and repeatedly, every output against a fresh Shaper's string; "
+            "non-trivial = some class / label with >= 2 instances and some non-typing triple")
 
     def gen_cases(self, tier, rnd):
-        n = 27000 if tier == "thorough" else 1800
+        thorough = tier == "thorough"
+        n = 27000 if thorough else 1800
         cases = []
         for i in range(n):
             r = random.Random(rnd.getrandbits(48))
@@ -53,8 +415,14 @@ class Spec(pipeprops.PropSpec):
             opt = OPTIONS[i % len(OPTIONS)]
             a, b = flip(opt, cfg, r)
             cases.append({"runs": [(ts, a), (ts, b)], "meta": {"option": opt}})
+        for i in range(9000 if thorough else 720):
+            cases.append(map_pair(random.Random(rnd.getrandbits(48)), i))
+        for i in range(5400 if thorough else 450):
+            cases.append(ign_pair(random.Random(rnd.getrandbits(48)), i))
+        for i in range(3000 if thorough else 240):
+            cases.append(sink_case(random.Random(rnd.getrandbits(48)), i))
         # output file vs string on outputs that cross the serializer's 5000-line buffer once / twice
-        for nclasses in ([900] if tier != "thorough" else [700, 900, 1800]):
+        for nclasses in ([900] if not thorough else [700, 900, 1800]):
             e = "http://ex.org/"
             ts = []
             for i in range(nclasses):
@@ -63,26 +431,77 @@ class Spec(pipeprops.PropSpec):
                 ts.append((n, e + "p", ("L", "v", pipe.XSD + "string")))
                 ts.append((n, e + "q", ("I", e + "n%d" % ((i + 1) % nclasses))))
             cfg = pipe.base_cfg()
-            cases.append({"runs": [(ts, cfg), (ts, cfg, "shexc_file")], "meta": {"option": "sink", "classes": nclasses}})
+            cases.append({"runs": [(ts, cfg), (ts, cfg, "shexc_file"), (ts, cfg, "hist:sf"), (ts, cfg, "hist:fs")],
+                          "meta": {"option": "sink", "classes": nclasses}})
         return cases
+
+    def model_other(self, ts, cfg, kind, impl):
+        if kind != "shexc_ign":
+            return ("n/a", ""), True          # sinks: related to the model through the fresh string run of their case
+        row = pipeprops._mb().call("pipe_shexc_ign", ign_table(ts, cfg))[0]
+        m = ("ok", pipe.shim(row[1], cfg["decimals"])) if row[0] == "ok" else ("err", row[1])
+        ok = m == tuple(impl[:2])
+        return ("ign-model", "agrees" if ok else "DISAGREES", list(m)), ok
+
+    def extra_vm_cases(self, cases, mb, rnd, tier):
+        out = []
+        pool = [c for c in cases if c["meta"].get("stream") == "no-typing-constraint"]
+        for c in rnd.sample(pool, min(len(pool), 12 if tier == "thorough" else 3)):
+            t = ign_table(c["runs"][0][0], c["runs"][0][1])
+            out.append(("pipe_shexc_ign", t, mb.call("pipe_shexc_ign", t)))
+        return out
 
     def oracle(self, case, impl):
         if case["meta"]["option"] == "sink":
-            fails = []
-            if impl[0][0] != "ok" or impl[1][0] != "ok":
-                return [(None, "big extraction failed: %r" % ([r[:2] for r in impl if r[0] != "ok"],))], 1
-            if impl[0][1] != impl[1][1]:
-                fails.append((None, "file output differs from string output (%d vs %d characters)" % (
-                    len(impl[1][1]), len(impl[0][1]))))
-            n = len(pipe.canon(impl[0][1])["shapes"])
-            if n != case["meta"]["classes"]:
-                fails.append((None, "string output holds %d shapes for %d classes" % (n, case["meta"]["classes"])))
-            return fails, 1
+            return self.sink_oracle(case, impl)
         if any(r[0] != "ok" for r in impl):
             return [], 0
         (ts, a), (_, b) = case["runs"][0][:2], case["runs"][1][:2]
-        fails = pipespec.check_option(case["meta"]["option"], a, b, pipe.canon(impl[0][1]), pipe.canon(impl[1][1]), ts)
+        da, db = pipe.canon(impl[0][1]), pipe.canon(impl[1][1])
+        fails = pipespec.check_option(case["meta"]["option"], a, b, da, db, ts)
+        if fails and case["meta"]["option"] == "shapes_ns":
+            rc = shapes_ns_root_cause(b, db, ts)
+            fails = [(rc if r is None else r, d) for r, d in fails]
+        fails += check_effect(a, da, ts)
+        for f in check_effect(b, db, ts):
+            if f not in fails:
+                fails.append(f)
         return fails, 1
+
+    def sink_oracle(self, case, impl):
+        big = case["meta"].get("classes")
+        if impl[0][0] != "ok":
+            if big:
+                return [(None, "big extraction failed: %r" % (impl[0][:3],))], 1
+            return [], 0
+        fails = []
+        want = impl[0][1]
+        for rn, res in list(zip(case["runs"], impl))[1:]:
+            kind = rn[2]
+            if res[0] != "ok":
+                fails.append((None, "%s fails (%s %s) where a fresh Shaper returns the shapes as a string" % (
+                    kind, res[1], res[2] if len(res) > 2 else "")))
+                continue
+            if kind == "shexc_file":
+                if res[1] != want:
+                    fails.append((None, "file output differs from string output (%d vs %d characters)" % (
+                        len(res[1]), len(want))))
+                continue
+            ops = kind[5:]
+            for k, text in enumerate(json.loads(res[1])):
+                if text != want:
+                    n0 = sum(len(s["constraints"]) for s in pipe.canon(want)["shapes"])
+                    n1 = sum(len(s["constraints"]) for s in pipe.canon(text)["shapes"])
+                    fails.append((None, "one Shaper, calls %s (s = string_output, f = output_file): the %s output of "
+                                        "call %d differs from a fresh Shaper's string output (%d vs %d constraints, "
+                                        "%d vs %d characters)" % ("->".join(ops), "file" if ops[k] == "f" else "string",
+                                                                  k + 1, n1, n0, len(text), len(want))))
+                    break
+        if big:
+            n = len(pipe.canon(want)["shapes"])
+            if n != big:
+                fails.append((None, "string output holds %d shapes for %d classes" % (n, big)))
+        return fails, len(impl) - 1
 
 
 def run(tier, seed, replay=None):
